@@ -466,3 +466,11 @@ def check_keyless(prog, P, kl, R):
                         % ("; ".join(why) or ", ".join(
                             ("" if p else "!") + show(a) for a, p in facts)))
     R.floor("true paths of RCPBasicKeyLess", len(tps), 2)
+
+
+MANIFEST = dict(
+    technique='static value-set analysis of compare() returns, compare/__eq__ footprint agreement, who-may-call rule for the same-type-only virtual compare, shape check of RCPBasicKeyLess and Basic::__cmp__',
+    text='Decides over every compare/__cmp__/unified_compare definition and every concrete Basic class: all returns confined to {-1,0,1} (fixpoint over callees, external three-way results rejected); compare reads every member __eq__ distinguishes and vice versa on every true path (0 iff equal); NaN handling where floats are ordered; compare() only called under equal dynamic types (type-code branch of __cmp__); RCPBasicKeyLess is hash order, then eq, then __cmp__ == -1. Transitivity within a class is inherited from lexicographic composition and not proved per member order.',
+    note='Trusted: clang 14 AST; operator< / == of std::string, integer_class, rational_class are consistent total orders; guards are not invalidated by intervening assignments.',
+    ref='§2 C02',
+)
